@@ -138,11 +138,21 @@ func c15Program(k int, xs, ys jast.Node) (jast.Node, string) {
 		return call("distinct", call("append", xs, ys)), "distinct-append"
 	case 11:
 		return call("zip", xs), "zip1"
+	case 12:
+		// equal containers, one of them holding an array as a library function
+		// builds it (a []string), with text that encoders write in different ways
+		str := "x\u00a0y\u007f\u00ad,z"
+		return call("distinct", call("append", &jast.Array{Items: []jast.Node{
+			obj("k", call("split", &jast.Str{V: str}, &jast.Str{V: ","})), obj("k", lit(A{"x\u00a0y\u007f\u00ad", "z"}))}}, xs)), "distinct-library-string-array"
+	case 13:
+		// ... and the whole-array argument of $map for a scalar (a []float64)
+		return call("map", &jast.Num{V: 1000000}, lam([]string{"v", "i", "a"}, call("count", call("distinct",
+			&jast.Array{Items: []jast.Node{obj("k", v("a")), obj("k", lit(A{1000000.0})), obj("k", lit(A{1e-7}))}})))), "distinct-library-number-array"
 	}
 	return call("count", call("shuffle", xs)), "shuffle-count"
 }
 
-func c15NProg() int { return len(c15Callbacks) + 2*len(c15Preds) + 2*len(c15Folds) + 13 }
+func c15NProg() int { return len(c15Callbacks) + 2*len(c15Preds) + 2*len(c15Folds) + 15 }
 
 var c15Pool = []interface{}{1.0, 2.0, 2.0, 3.0, -1.0, 0.5, "1", "a", "a", "", true, false, A{1.0}, A{1.0}, A{A{1.0}}, A{}, O{"a": 1.0}, O{"a": 1.0}, O{"a": "1"}, O{}, 1e21,
 	// zero with and without sign inside containers (equal by value)
